@@ -153,7 +153,20 @@ func readPairedSymbol(p *string, left, right rune) *string {
 	var leftLevel, rightLevel int
 	escapeIndexes := make(map[int]bool)
 	var realEqual, escapeEqual bool
+	// inside a '...' literal of a group the pairing symbols (and the backslashes before
+	// them) are text of the literal
+	var inQuote bool
 	for i, r := range s {
+		if left != '\'' {
+			if r == '\'' && (last1 != '\\' || last2 == '\\') {
+				inQuote = !inQuote
+			}
+			if inQuote {
+				last2 = last1
+				last1 = r
+				continue
+			}
+		}
 		if realEqual, escapeEqual = equalRune(right, r, last1, last2); realEqual {
 			if leftLevel == rightLevel {
 				*p = s[i+1:]
